@@ -83,8 +83,11 @@ def signature(fn, reason):
     kind = re.sub(r"(illegal-for-model|result-ids-differ|result-aliases-live-object|const-or-unrelated-object-modified).*", r"\1", kind)
     if where == "harness":
         kind = "harness-internal:" + kind
-    if fn == "END" and kind == "leak":          # a leak has no entry point: the allocating GEOS function names the defect
-        kind = "leak:" + where
+    if fn == "END" and kind == "leak":
+        # a leak is seen at exit; the harness names: the allocating GEOS function, its GEOS caller, and (from a second pass that tags every
+        # allocation with the running call) whether the call that allocated the object ended with an error (on-error-path: an exception
+        # skipped the cleanup) or returned normally (on-normal-path).  The entry point after the second "@" is informative only.
+        kind = "leak:" + where.split("@")[0]
     if kind.startswith(("ubsan-", "asan-")) and where.startswith("geos::"):
         # a sanitizer report inside the library: the defect is where it happens, whatever entry point led there (the same
         # precision-scale overflow is reachable through a dozen overlay / buffer calls); the class, not the exact frame
@@ -202,6 +205,23 @@ class Runner:
         else:
             cur = body
             last_fixed = 0
+        # long sequences (a leak is only seen at END, so nothing points at the call): remove blocks first, halving the block size
+        size = (len(cur) - last_fixed) // 2
+        while size >= 2 and len(cur) - last_fixed > 12:
+            n = len(cur) - last_fixed
+            starts = list(range(0, n, size))
+            res = self.sigs([mk(cur[:a] + cur[min(a + size, n):]) for a in starts])
+            progressed = False
+            for a, r_ in sorted(zip(starts, res), reverse=True):          # from the end: earlier indices stay valid
+                if r_ == sig:
+                    cand = cur[:a] + cur[min(a + size, len(cur) - last_fixed):]
+                    if not progressed or self.sigs([mk(cand)])[0] == sig:
+                        cur = cand
+                        progressed = True
+            if not progressed:
+                size //= 2
+            else:
+                size = min(size, max(2, (len(cur) - last_fixed) // 2))
         for _round in range(3):
             n = len(cur) - last_fixed
             if n <= 0 or n > 80:
@@ -244,6 +264,15 @@ def report_failure(ctx, runner, line, verdict, seen, origin):
     if any(kf.get("signature") == sig for kf in ctx.known):
         ctx.violation("known", {"signature": sig}, signature=sig)          # records KNOWN-FINDING, no replay file
         return
+    if sig.get("fn") == "END" and sig["kind"].endswith(":unattributed"):
+        # the second (attributing) pass did not reproduce the leak — GEOS is not deterministic on some non-finite inputs.  A recorded
+        # finding with the same allocating function and caller, whatever its path, covers it (a false alarm is worse than a gap)
+        base = sig["kind"][:-len(":unattributed")]
+        for kf in ctx.known:
+            ks = kf.get("signature") or {}
+            if ks.get("fn") == "END" and ks.get("kind", "").rsplit(":", 1)[0] == base:
+                ctx.violation("known", {"signature": ks}, signature=ks)
+                return
     runner.shrunk = getattr(runner, "shrunk", 0) + 1
     if runner.shrunk <= runner.max_shrinks:
         script, obs, v2, err = runner.shrink(line, k, sig)
@@ -360,6 +389,13 @@ def run(ctx):
     ])
     quick = ctx.tier == "quick"
     ctx.cov["exclusions"] = EXCLUSIONS
+    import time
+    t_ = [time.time()]
+    timing = ctx.cov.setdefault("timing_s", {})
+
+    def lap(name):
+        timing[name] = round(time.time() - t_[0], 1)
+        t_[0] = time.time()
     # the committed corpus file is also a list of recorded findings: its `known` entries suppress like KNOWN_FINDINGS.json
     # (the coordinator mirrors them there); its `fixed` entries suppress nothing
     if os.path.exists(CORPUS):
@@ -384,6 +420,7 @@ def run(ctx):
         return
     lib = os.path.join(verif.geos_dir("asan"), "lib", "libgeos_c.so")
 
+    lap("build_geos_asan")
     # ---- sync: regenerate the table from the current tree
     try:
         tab = api_table.generate(verif.REPO, GENERATED, lib=lib)
@@ -410,6 +447,7 @@ def run(ctx):
             broken, diag_out = {}, repr(ex)
         ctx.cov["table_theorems_broken"] = broken
 
+    lap("translate_and_prove")
     # ---- correspondence
     exe, out = verif.build_harness("c12", "asan")
     if not exe:
@@ -426,13 +464,16 @@ def run(ctx):
         ctx.violation("entry points called by the harness are not in the generated table: %s" % missing[:8],
                       {"kind": "tie-broken", "missing": missing}, nofail=True)
     seen = {}
+    lap("build_harness")
     ctx.cov["support_correspondence"]["corpus"] = run_corpus(ctx, runner, seen)
-    n = 640 if quick else 12000
+    lap("corpus")
+    n = 1200 if quick else 12000
     if os.environ.get("C12_N"):                      # test aid
         n = int(os.environ["C12_N"])
     shards = min(verif.NPROC, 16)
     env = {"C12_CALL_TIMEOUT": str(call_timeout)}
     r = verif.run_stream(exe, "api-seq", ctx.seed, n, ctx.work, shards=shards, driver_exe="drv_c12", env=env, timeout=3000 if quick else 30000)
+    lap("api_seq_stream")
     covered = set()
     for k in range(shards):
         p = os.path.join(ctx.work, "api-seq.%d.fns" % k)
@@ -473,6 +514,7 @@ def run(ctx):
         ctx.cov["support_correspondence"]["api-seq"]["distinct_failure_signatures"] = len(seen)
         ctx.cov["support_correspondence"]["api-seq"]["failure_signatures"] = [dict(json.loads(k), count=v) for k, v in sorted(seen.items())][:200]
 
+    lap("classify_and_shrink")
     # ---- a table theorem broke: look for a concrete failing call of each named function
     if not proved:
         lf = getattr(ctx, "lean_failure", None) or {}
